@@ -66,6 +66,8 @@ FLAVOURS = {
     'plain': make_classes({}),
     'falsy': make_classes({'__bool__': lambda self: False}),
     'empty': make_classes({'__len__': lambda self: 0}),
+    # every instance equals everything and all hash alike (value-style components with equal fields)
+    'all-equal': make_classes({'__eq__': lambda self, other: True, '__hash__': lambda self: 7}),
 }
 CLASSES, CREATE_SETS = FLAVOURS['plain']
 Hd, Hs, N, Ha, Ho = CLASSES
@@ -105,8 +107,7 @@ class Model:
         if old is not None:
             self.detach(e, old)
         self.ents.setdefault(e, {})[type(inst)] = inst
-        if inst in self.detached:
-            self.detached.remove(inst)
+        self.detached = [d for d in self.detached if d is not inst]
         if has(type(inst), 'on_add'):
             self.group.append((inst, 'on_add', e, self.w))
 
@@ -356,11 +357,14 @@ HARNESSES = {
 TIERS = {
     'quick': [('life', dict(L=3)),
               ('life', dict(L=2, flavour='falsy'), dict(required=['unusual-falsy', 'replace', 'remove', 'probe'])),
-              ('life', dict(L=2, flavour='empty'), dict(required=['unusual-empty', 'replace', 'remove', 'probe']))],
+              ('life', dict(L=2, flavour='empty'), dict(required=['unusual-empty', 'replace', 'remove', 'probe'])),
+              ('life', dict(L=3, flavour='all-equal', ids=(1,), classes=2, create_sets=2, auto=False),
+               dict(required=['unusual-all-equal', 'replace', 'remove', 'probe', 'release', 'attach-disabled']))],
     'thorough': [('life', dict(L=4, ids=(1,), classes=5, create_sets=7, auto=True)),
                  ('life', dict(L=4, ids=(1, 2), classes=3, create_sets=3, auto=False)),
                  ('life', dict(L=5, ids=(1,), classes=2, create_sets=2, auto=False, reuse=False)),
-                 ('life', dict(L=3, flavour='falsy')), ('life', dict(L=3, flavour='empty'))],
+                 ('life', dict(L=3, flavour='falsy')), ('life', dict(L=3, flavour='empty')),
+                 ('life', dict(L=4, flavour='all-equal', ids=(1,), classes=3, create_sets=3, auto=False))],
 }
 BUDGET_S = {'quick': 150, 'thorough': 1500}
 EXPLANATION = (
@@ -384,7 +388,7 @@ ASSUMPTIONS = [
     'forever, dispatch is enabled after this operation") contradicts postponement, so that combination is outside the claim',
     'probe events are only dispatched while dispatching is enabled (deferred delivery of ordinary events is C04)',
     'an instance is attached to at most one entity at a time; callbacks do not raise (C04/C05)',
-    'component instances may be falsy (__bool__ False) or empty (__len__ 0): flavours falsy / empty',
+    'component instances may be falsy (__bool__ False), empty (__len__ 0) or all equal and hash-equal: flavours falsy / empty / all-equal',
     're-populating an id emptied while its deferred-deletion mark was pending is outside the claim (as in C01)',
 ]
 OUTSIDE = ['histories longer than L', 'processors (C07)', 'callbacks that mutate the world']
